@@ -497,6 +497,21 @@ class Repo:
     return [x.arg for x in (a.posonlyargs + a.args)[1:]] + \
         [x.arg for x in a.kwonlyargs]
 
+  def stored_attrs(self):
+    """Names ever assigned as <obj>.<name> = ... anywhere in the package
+    (instance attributes that can exist at run time)."""
+    if getattr(self, '_stored', None) is None:
+      out = set()
+      for m in self.modules.values():
+        for n in ast.walk(m.tree):
+          if isinstance(n, ast.Attribute) and isinstance(n.ctx, ast.Store):
+            out.add(n.attr)
+          elif isinstance(n, ast.Call) and isinstance(n.func, ast.Name) and \
+                  n.func.id == 'setattr':
+            out.add('*')
+      self._stored = out
+    return self._stored
+
   def all_functions(self):
     for m in self.modules.values():
       for f in m.functions.values():
